@@ -113,6 +113,20 @@ CLAIMED["C05"] = {
     "category": "proof",
 }
 
+CLAIMED["C03"] = {
+    "text": "Proof: 19 _pslinux.Process methods, each verified through its real wrap_exceptions/memoize decorators under "
+            "a fault model in which every OS access independently succeeds, fails with ENOENT/ESRCH (exactly when the "
+            "process is gone; monotone) or is denied: the only exceptions that can escape are NoSuchProcess / "
+            "ZombieProcess / AccessDenied carrying the object's pid, NoSuchProcess only if the process was observed "
+            "gone, no IndexError/ValueError/KeyError/TypeError on grammar-conforming records, and a normal return proves "
+            "the process existed at the first access. One proof per method covers every access index and every fault "
+            "sequence. Loop-heavy methods, as_dict/oneshot sequences, children/parent/process_iter and 'once gone, "
+            "always NoSuchProcess' across calls are covered by a bounded fault-injection sweep on a fake procfs.",
+    "note": "procfs fault model and record grammars assumed; errnos outside ENOENT/ESRCH/EACCES/EPERM and truncated "
+            "records outside the quantifier; one recorded known finding (C03-denied-identity-check).",
+    "ref": "DESIGN.md section 5 (C03)",
+}
+
 NOT_YET = "check not built yet (work in progress, see DESIGN.md section 7)"
 NA = {}
 
